@@ -79,6 +79,58 @@ def history_in_process(res, drv, n, rng):
     return ivs
 
 
+def history_kms_object(res, n, rng, known_ivs):
+    """the key-management object used as a library: one import of the KMS script, several objects, many encrypt() calls"""
+    import importlib.util
+    from cryptography.hazmat.primitives.ciphers.aead import AESGCM
+    draws = []
+    real = os.urandom
+
+    def recording(nbytes):
+        b = real(nbytes)
+        draws.append(b)
+        return b
+
+    os.urandom = recording
+    try:
+        spec = importlib.util.spec_from_file_location("verif_kms_c14", common.REPO / "ncs" / "basic_kms.py")
+        mod = importlib.util.module_from_spec(spec)
+        spec.loader.exec_module(mod)            # draws made while the script is loaded belong to no call
+        objs = [mod.suit_kms_factory() for _ in range(3)]
+        for o in objs:
+            o.init_kms(aes_keys_dir())
+        seen = b"".join(draws)
+        ivs = dict(known_ivs)
+        fixed = bytes(range(48))
+        for i in range(n):
+            fw = fixed if i % 2 == 0 else bytes(rng.randrange(256) for _ in range(rng.choice([0, 1, 16, 33])))
+            aad = rng.choice([b"", b"aad", bytes(10)])
+            draws.clear()
+            nonce, tag, ct = objs[i % 3].encrypt(fw, "aes_key", aes_keys_dir(), aad)
+            this_call = b"".join(draws)
+            res.case(["kms-object", i], nontrivial=(i > 0))
+            if len(nonce) != 12:
+                res.spec_failures.append({"kms_call": i, "iv": nonce.hex(), "what": "returned IV is not 96 bits"})
+            if nonce not in this_call:
+                res.spec_failures.append({"kms_call": i, "iv": nonce.hex(), "what": "the returned IV is not made of bytes drawn from the entropy source during this call"})
+            if nonce in seen:
+                res.spec_failures.append({"kms_call": i, "iv": nonce.hex(), "what": "the returned IV re-uses bytes drawn earlier"})
+            if nonce in ivs:
+                res.spec_failures.append({"kms_call": i, "iv": nonce.hex(), "earlier_call": str(ivs[nonce]), "what": "IV repeated with the same key"})
+            ivs[nonce] = f"kms{i}"
+            seen += this_call
+            try:
+                if AESGCM(AES_KEY).decrypt(nonce, ct + tag, aad) != fw:
+                    res.spec_failures.append({"kms_call": i, "what": "decryption with the returned IV yields a different plaintext"})
+            except Exception:
+                res.spec_failures.append({"kms_call": i, "iv": nonce.hex(), "what": "decryption with the returned IV fails: the IV returned is not the IV used"})
+            if len(res.spec_failures) > 20:
+                break
+    finally:
+        os.urandom = real
+    res.count("kms_object_calls", n)
+
+
 def history_cli(res, drv, n, known_ivs):
     """separate interpreter per invocation, identical firmware"""
     ivs = dict(known_ivs)
@@ -124,6 +176,7 @@ def run(tier: str, seed: int) -> int:
     rng = rng_for(seed, PROP)
     drv = Driver()
     ivs = history_in_process(res, drv, 3000 if tier == "quick" else 100000, rng)
+    history_kms_object(res, 600 if tier == "quick" else 20000, rng, ivs)
     history_cli(res, drv, 16 if tier == "quick" else 100, ivs)
     some = list(ivs.items())[:3]
     res.sample({"first_calls": [{"call": c, "published_iv": iv.hex()} for iv, c in some]})
